@@ -128,6 +128,7 @@ def run(ctx):
                 return 'the list parser returned something that is not a prefix of the well-formed extensions before the overrunning one'
         return None
     common.run_differential(ctx, ov, common.proj_value, classify=overrun_class)
+    common.run_cg(ctx, ('ext',), common.proj_value)
     common.lean_failure_violation(ctx, ok)
     return ctx.finish(LEVEL,
         rule='exhaustive over types: 65536 extension types x 3 dispatchers (x probe contents) judged by the type->variant specification (known types per dispatcher, 16 RFC 8701 values, Unknown otherwise, byte-for-byte data), tag-specific parsers over types (own type only), every variant with well-formed contents from the independent encoder through all dispatchers / list parsers / ext_type_of / tag and content parsers (exact), every length field corrupted (differential), overrun families; distinct = (dispatcher, specified variant, probe size, outcome) resp. (family, outcome shape)',
